@@ -81,6 +81,7 @@ def run(c, chk, alloc_failure=False):
     freecb_rule(c, chk, ex)
     include_rule(c, chk, ex)
     realloc_to_nothing(c, chk, ex)
+    lent_strings(c, chk, ex)
     if not isinstance(chk, report.SubCheck) and not alloc_failure:
         from . import c09 as _c09, c08 as _c08, c16 as _c16
         # R7.8: "never uses it after release": a setter that may be handed the option's own current string copies it first
@@ -317,6 +318,35 @@ def parser_ownership(c, chk):
 def is_section_value(v):
     """v is loaded from the 'section' member of a value slot"""
     return v[0] == 'ld' and v[1][0] == 'fld' and v[1][3] == 'section'
+
+
+def lent_strings(c, chk, ex):
+    """R7.10: a string handed to the library as an argument stays the caller's: no function releases a `char *` parameter of
+    its own (the caller - call_function() for an include name, the application for a file name - reads and releases it
+    afterwards)"""
+    chk.rule('R7.10', 'no function of confuse.c passes one of its own string parameters to free()')
+    n = 0
+    bad = None
+    for f in c.confuse.funcs.values():
+        if f.name in c.unknown_funcs:
+            continue          # a helper that is handed an allocated string to keep or release is judged in its caller
+        sp = {f.param_names.get(p_.name, p_.name) for p_ in f.params if p_.ty == 'i8*'}
+        if not sp or not any(True for g in c.deep_funcs(f) for _ in g.calls('free')):
+            continue
+        n += 1
+        for p in ex.explore(f):
+            for e in p.events:
+                if e.kind == 'call' and e.name == 'free' and e.args and e.args[0][0] == 'p' and e.args[0][1] in sp:
+                    bad = bad or (f, e)
+            if bad:
+                break
+    if bad is not None:
+        f, e = bad
+        chk.fail('R7.10', 'frees-argument:%s:%s' % (f.name, e.args[0][1]), c.where(e.ins), '%s() releases its own argument "%s" with free(): the string belongs to the caller, '
+                 'who goes on to use it and releases it again' % (f.name, e.args[0][1]))
+    else:
+        chk.ok('R7.10', '%d functions with string parameters that call free()' % n, 'none releases a parameter')
+    chk.floor('R7.10 functions examined', n, 5)
 
 
 def searchpath_rule(c, chk, ex):
